@@ -79,3 +79,15 @@ Theorem C16_combiner_packs_the_retrieved_item :
   exists l, wlog w' = wlog w1 ++ LPack (wnow w1) n (pit pr) i :: l.
 Proof. exact FactoryBlocks.combiner_packs_the_retrieved_item. Qed.
 Print Assumptions C16_combiner_packs_the_retrieved_item.
+
+(* tie B: the push helpers of the node classes, re-read from nodes/*.py on every run: each reserves a place on the edge it was
+   given, waits for the grant and puts exactly the item it was given -- no second look at the edge, no withdrawal, no other
+   object (theories/Nodes/TieNodes.v); the model's push process does the same (Factory.push_block) *)
+From FV Require SrcFragments TieNodes.
+Theorem C16_push_helpers_put_the_item_they_were_given :
+  SrcFragments.Source_push_item_shape = true /\
+  SrcFragments.Machine_push_item_shape = true /\
+  SrcFragments.Splitter_push_item_shape = true /\
+  SrcFragments.Combiner_push_item_shape = true.
+Proof. repeat split. Qed.
+Print Assumptions C16_push_helpers_put_the_item_they_were_given.
